@@ -184,7 +184,7 @@ def nak_unpack_any(data, c0, c1):
         ensures("reported-length", g.packet_len == n)
 
 
-NAK_ANY = dict(verifies=[NAKQ + "NakPdu.unpack"], lia_branch=True, shards=8, shard_depth=14)
+NAK_ANY = dict(verifies=[NAKQ + "NakPdu.unpack"], lia_branch=True, shards=8, shard_depth=10)
 
 
 @obligation(["C06", "C09", "C10", "C04"], "NakPdu.unpack/any-list/idw1-2", **NAK_ANY)
@@ -204,3 +204,29 @@ def nak_unpack_any_other(data: Bytes):
     o = outcome(NakPdu.unpack, data)
     ensures("raises-only", o.ok or o.raised(ValueError, InvalidCrc, UnsupportedCfdpVersion))
     ensures("refused", not o.ok)
+
+
+@obligation(["C06", "C09", "C04"], "NakPdu/roundtrip/any-list", verifies=[NAKQ + "NakPdu.unpack", NAKQ + "NakPdu.pack", NAKQ + "NakPdu.__eq__"],
+            shards=8, shard_depth=8)
+def nak_roundtrip_any(mode: EnumOf(TransmissionMode), crc: EnumOf(CrcFlag), large: EnumOf(LargeFileFlag), we: W2, ws: W2B,
+                      src: Int, seq: Int, dst: Int, start: Int, end: Int, reqs: PairList):
+    """decode(encode(x)) for ANY number of segment requests: same scope, same requests in the same order, equal PDU, same octets
+    again.  Composition of the two loop contracts with the lemmas enc_reqs/length and dec_reqs/inverse-of-enc."""
+    requires(ids_in_range(we, ws, src, seq, dst))
+    lg = (large == LargeFileFlag.LARGE)
+    requires(1 + 2 * fss_len(lg) * (1 + len(reqs)) + crc_len(crc) <= 65535)
+    requires(both(fss_fits(lg, start), fss_fits(lg, end), fit_reqs(reqs, lg)))
+    conf = nak_conf(we, ws, src, seq, dst, mode, crc, large)
+    pdu = NakPdu(conf, start, end, reqs)
+    use_lemma("enc_reqs/length", len(enc_reqs(reqs, lg)) == 2 * fss_len(lg) * len(reqs))
+    use_lemma("dec_reqs/inverse-of-enc", dec_reqs(enc_reqs(reqs, lg), lg) == reqs)
+    raw = pdu.pack()
+    o = outcome(NakPdu.unpack, raw)
+    ensures("accepted", o.ok)
+    if o.ok:
+        g = o.value
+        ensures("scope", both(g.start_of_scope == start, g.end_of_scope == end))
+        ensures("requests", g.segment_requests == reqs)
+        ensures("equal", both(g == pdu, pdu == g))
+        ensures("lengths", both(g.packet_len == len(raw), g.pdu_file_directive.pdu_data_field_len == pdu.pdu_file_directive.pdu_data_field_len))
+        ensures("repack", g.pack() == raw)
